@@ -24,20 +24,25 @@ def handler (mode : String) (line : String) : String :=
           | some (cfg, ops) => toStr (traceT ((obsOfRun (run cfg ops)).map canonStep))
           | none => "(bad-case)"
   | "oracle" =>
-      match parseMany line with
-      | some [c, o] =>
+      -- an ill-formed case carries no claim: accepted iff the implementation side refused it too
+      let badCase (o : String) := if o == "(bad-case)" then "ok" else "fail step=0 clause=ill-formed-case-was-run"
+      match line.splitOn "\t" with
+      | [cs, os] =>
+        match parse cs with
+        | none => badCase os
+        | some c =>
           match svcOf? c with
           | some reqs =>
-              match svcTraceOf? o with
+              match (parse os).bind svcTraceOf? with
               | some (es, fs) => verdictStr (Spec.checkSvc reqs es fs)
               | none => "fail step=0 clause=unparsable-observation"
           | none =>
             match caseOf? c with
             | some (cfg, ops) =>
-                match traceOf? o with
+                match (parse os).bind traceOf? with
                 | some tr => verdictStr (Spec.check cfg ops tr)
                 | none => "fail step=0 clause=unparsable-observation"
-            | none => "(bad-case)"
+            | none => badCase os
       | _ => "(bad-line)"
   | _ => "(bad-mode)"
 
